@@ -27,6 +27,14 @@ func c13bGen(rt *rapid.T) e4Case {
 		}
 		// the application probes the connection itself (Ping without deadline) the moment the peer goes silent
 		c.Cfg.AppPingOnSilence = rapid.IntRange(0, 2).Draw(rt, "appPing") == 0
+		if rapid.IntRange(0, 2).Draw(rt, "latePingresp") == 0 {
+			// a slow broker (PINGRESP 3 ms late, well inside the keep-alive's own timeout) and an application that pings
+			// with a 1 ms deadline: its answers arrive after it gave up and must not count for anybody else
+			c.Cfg.PingDelayMs = 3
+			c.Cfg.PingMs = rapid.IntRange(5, 8).Draw(rt, "pingMs3")
+			c.Cfg.PingTimeoutMs = rapid.IntRange(40, 60).Draw(rt, "pingTimeoutMs3")
+			c.Cfg.AppPingShortN = rapid.IntRange(1, 3).Draw(rt, "appPingShortN")
+		}
 		// steady outbound traffic (QoS0 publishes more often than the ping interval) must not keep the silence undetected
 		c.Cfg.ChatterUs = rapid.SampledFrom([]int{0, 0, 300, 1000}).Draw(rt, "chatterUs")
 	} else {
@@ -64,6 +72,24 @@ func c13bOracle(r *e4Result) (string, bool, []string) {
 			if l.Seq < e.Seq && l.Conn == e.Conn && l.Kind == "B" && l.Pkt != nil && l.Pkt.Type == rtPingResp {
 				afterAnsweredPing = true
 			}
+		}
+		// After the silence the keep-alive can write at most one more PINGREQ: that one is never answered, so it must end
+		// in ErrPingTimeout and the connection is closed (one already in flight when the silence began makes it zero).
+		// Pings the application itself made after the silence are its own business.
+		pingsAfter, appPings := 0, 0
+		for _, l := range r.Log {
+			if l.Seq > e.Seq && l.Conn == e.Conn && l.Kind == "W" && l.Pkt != nil && l.Pkt.Type == rtPingReq {
+				pingsAfter++
+			}
+			if l.Seq > e.Seq && l.Conn == e.Conn && l.Kind == "APP-PING" && l.Note == "called" {
+				appPings++
+			}
+			if l.Seq > e.Seq && l.Kind == "APP-PING-SHORT" {
+				appPings++ // (logged when it returned: it may have been written after the silence began)
+			}
+		}
+		if pingsAfter > 1+appPings {
+			return fmt.Sprintf("the peer of c%d went silent (#%d); afterwards %d PINGREQs were written there (the application itself pinged %d times): an unanswered keep-alive ping was not treated as a timeout", e.Conn, e.Seq, pingsAfter, appPings), true, labels
 		}
 		closedLocal, cut := false, false
 		var closeSeq int64
